@@ -309,7 +309,11 @@ func solveAll(obls []*Obligation, timeout int, seed int, agree bool, par int) []
 			}
 			q := o.vc.Query(o.Hyp, goal, -1, true)
 			t0 := time.Now()
-			sr := Solve(q, timeout, seed, agree && o.Kind == "prove")
+			tmo := timeout
+			if o.Kind == "cover" && tmo > 6 {
+				tmo = 6
+			}
+			sr := Solve(q, tmo, seed, agree && o.Kind == "prove")
 			_ = t0
 			r.Solve = sr
 			switch o.Kind {
